@@ -53,7 +53,7 @@ def initial_orders(i, top=None):
 def write_setup(wd, n_intf=3, moves=None, workers=1, steps=10, seed=0, cap=None, maxlength=400,
                 allowmaxlength=False, n_jumps=2, delete_old=False, delete_old_all=False,
                 lambda_minus_one=None, wall=-4, screen=0, quantis=False, extra_engine=None,
-                ensemble_engines=None, keep_traj_fnames=None, zeroswap=None, init_reach=None):
+                ensemble_engines=None, keep_traj_fnames=None, zeroswap=None, init_reach=None, n_order=1):
     import tomli_w
     from infretis.classes.formatter import PathStorage
     from infretis.classes.path import Path
@@ -74,7 +74,7 @@ def write_setup(wd, n_intf=3, moves=None, workers=1, steps=10, seed=0, cap=None,
         "runner": {"workers": workers},
         "simulation": {"interfaces": intf, "steps": steps, "seed": seed, "load_dir": "load",
                        "shooting_moves": moves, "tis_set": tis_set},
-        "engine": {"class": "LatticeEngine", "module": PLUGINS, "wall": wall},
+        "engine": {"class": "LatticeEngine", "module": PLUGINS, "wall": wall, **({"n_order": n_order} if n_order != 1 else {})},
         "orderparameter": {"class": "IntOrder", "module": PLUGINS},
         "output": {"data_dir": "./", "screen": screen, "pattern": False, "delete_old": delete_old,
                    "delete_old_all": delete_old_all},
@@ -102,7 +102,7 @@ def write_setup(wd, n_intf=3, moves=None, workers=1, steps=10, seed=0, cap=None,
         p = Path(maxlen=maxlength)
         for k, o in enumerate(orders):
             s = System()
-            s.order = [float(o)]
+            s.order = [float(o)] + [float((o * (k + 2)) % 5) + 0.25 * k for k in range(n_order - 1)]
             s.config = (fn, k)
             s.vel_rev = False
             s.vpot = 0.0
